@@ -5,34 +5,19 @@ import (
 	"math/big"
 	"testing"
 
-	"github.com/bronlabs/bron-crypto/pkg/base/nt/cardinal"
 	"github.com/bronlabs/bron-crypto/pkg/base/nt/num"
 	"github.com/bronlabs/bron-crypto/pkg/base/nt/numct"
 )
 
 func TestProbe(t *testing.T) {
-	z := num.Z().FromInt64(-3).Mul(num.Z().Zero())
-	fmt.Println("(-3)*0: IsNegative", z.IsNegative(), "IsZero", z.IsZero(), "cmp0", z.Compare(num.Z().Zero()), "eq0", z.Equal(num.Z().Zero()), "big", z.Big(), "isPos", z.IsPositive(), "lessEq(0,z)", num.Z().Zero().IsLessThanOrEqual(z))
-	n := num.Z().Zero().Neg()
-	fmt.Println("neg(0): IsNegative", n.IsNegative(), "cmp0", n.Compare(num.Z().Zero()))
-	fmt.Println("card BitLen(5):", cardinal.New(5).BitLen(), cardinal.NewFromBig(big.NewInt(5)).BitLen(), cardinal.New(0).BitLen())
-	// divvartime negative cap
-	func() {
-		defer func() { fmt.Println("recover:", recover()) }()
-		var q, r numct.Nat
-		num0 := numct.NewNatFromBig(big.NewInt(0), 0)
-		den := numct.NewNatFromBig(big.NewInt(31), 5)
-		ok := q.DivVarTime(&r, num0, den)
-		fmt.Println("DivVarTime 0/31:", ok, q.Big(), q.AnnouncedLen(), r.Big(), r.AnnouncedLen())
-		num1 := numct.NewNatFromBig(big.NewInt(3), 2)
-		den = numct.NewNatFromBig(big.NewInt(1000), 70)
-		ok = q.DivVarTime(&r, num1, den)
-		fmt.Println("DivVarTime 3/1000:", ok, q.Big(), q.AnnouncedLen(), r.Big(), r.AnnouncedLen())
-	}()
-	// rat
-	r1, _ := num.Q().New(num.Z().FromInt64(0), num.NPlus().One())
-	r2, _ := num.Q().New(num.Z().FromInt64(-5), num.NPlus().One())
-	pr := r1.Mul(r2)
-	fmt.Println("0 * -5 rat: IsNegative", pr.IsNegative(), "IsZero", pr.IsZero(), "IsPositive", pr.IsPositive())
-	// jacobi of -0?
+	out := numct.NewIntFromBig(new(big.Int).Lsh(big.NewInt(1), 64), 65)
+	out.Add(numct.NewInt(1), numct.NewInt(2))
+	fmt.Println("out(2^64).Add(1,2) =", out.Big())
+	out2 := numct.NewIntFromBig(new(big.Int).Lsh(big.NewInt(5), 64), 70)
+	out2.Sub(numct.NewInt(10), numct.NewInt(3))
+	fmt.Println("out(5*2^64).Sub(10,3) =", out2.Big())
+	var fresh numct.Int
+	fresh.Add(numct.NewInt(1), numct.NewInt(2))
+	fmt.Println("fresh.Add(1,2) =", fresh.Big())
+	_ = num.Z()
 }
